@@ -510,19 +510,24 @@ impl Drop for QuietStdout {
 }
 
 pub fn run_case(line: &str) -> String {
+    run_case_with(line, DBConfig::default())
+}
+
+/// The same history on a database created with the given configuration (C12's configuration grid).
+pub fn run_case_with(line: &str, cfg: DBConfig) -> String {
     let _quiet = QuietStdout::new();
     let Some((setup, ops)) = parse_case(line) else { return "bad-op".into() };
     let dir = std::env::temp_dir().join(format!("axv-hist-{}-{}", std::process::id(), COUNTER.fetch_add(1, Ordering::SeqCst)));
     let _ = std::fs::remove_dir_all(&dir);
     std::fs::create_dir_all(&dir).unwrap();
-    let out = run_in(&dir, &setup, &ops);
+    let out = run_in(&dir, &setup, &ops, cfg);
     let _ = std::fs::remove_dir_all(&dir);
     out
 }
 
-fn run_in(dir: &std::path::Path, setup: &Setup, ops: &[Op]) -> String {
+fn run_in(dir: &std::path::Path, setup: &Setup, ops: &[Op], cfg: DBConfig) -> String {
     let path = dir.join("db.axm");
-    let db = match Database::create(&path, DBConfig::default()) {
+    let db = match Database::create(&path, cfg) {
         Ok(d) => d,
         Err(e) => return format!("create-failed ## {}", e),
     };
